@@ -8,6 +8,7 @@ import (
 
 	"github.com/EliCDavis/polyform/modeling"
 	"github.com/EliCDavis/polyform/rendering"
+	"github.com/EliCDavis/vector/vector2"
 	"github.com/EliCDavis/vector/vector3"
 	"polyverif/internal/run"
 )
@@ -217,6 +218,15 @@ func bvhCase(c *run.Ctx) run.Result {
 	diam := sc.diameter()
 	nearestNot0 := false
 	const nq = 20
+	type rayQ struct {
+		o, d       v3
+		tmin, tmax float64
+		class      string
+		ray        rendering.TemporalRay
+		cands      []candidate
+		nearest    float64 // nearest definite hit, +Inf if none
+	}
+	rays := make([]rayQ, 0, nq)
 	for q := 0; q < nq; q++ {
 		o, oc := sc.queryPoint(r)
 		var d v3
@@ -287,17 +297,100 @@ func bvhCase(c *run.Ctx) run.Result {
 			res.Count("bvh_rays_with_undecidable_candidates", 1)
 		}
 		res.Count("bvh_candidate_crossings", int64(len(cands)))
-		query := map[string]any{"origin": o, "direction": d, "min": tmin, "max": tmax, "class": oc + "/" + dc + "/" + mc}
+		nearest := math.Inf(1)
+		for _, cd := range cands {
+			if cd.status == stIn {
+				nearest = cd.t
+				break
+			}
+		}
+		rays = append(rays, rayQ{o: o, d: d, tmin: tmin, tmax: tmax, class: oc + "/" + dc + "/" + mc, ray: ray, cands: cands, nearest: nearest})
+	}
+
+	// The hit record is an OUT parameter: what it held before the call must not
+	// influence the answer. Record kinds are a workload dimension of every entry point.
+	//   fresh            rendering.NewHitRecord() per call
+	//   reused           ONE record per entry point for all rays of the case (half of these
+	//                    cases ask the rays in order of increasing hit distance: near first)
+	//   mixed            per call one of: literal with empty maps (Distance 0), bare
+	//                    &HitRecord{} (only HitList.Hit / Tree.Hit: BVHNode.Hit and Mesh.Hit
+	//                    write Float3Data["barycentric"] into the caller's record and need
+	//                    the map), Distance pre-set to tiny / half the true hit distance /
+	//                    huge / NaN / +Inf / negative
+	mode := []string{"fresh", "reused", "reused-near-first", "mixed", "mixed"}[r.Intn(5)]
+	res.SetAdd("bvh_record_modes", mode)
+	if mode == "reused-near-first" {
+		sort.SliceStable(rays, func(i, j int) bool { return rays[i].nearest < rays[j].nearest })
+	}
+	reused := make([]*rendering.HitRecord, len(structures))
+	for i := range reused {
+		reused[i] = rendering.NewHitRecord()
+	}
+	withMaps := func(dist float64) *rendering.HitRecord {
+		rec := rendering.NewHitRecord()
+		rec.Distance = dist
+		return rec
+	}
+	for _, rq := range rays {
+		o, d, tmin, tmax, cands, ray := rq.o, rq.d, rq.tmin, rq.tmax, rq.cands, rq.ray
+		query := map[string]any{"origin": o, "direction": d, "min": tmin, "max": tmax, "class": rq.class, "record_mode": mode}
 		type answer struct {
 			Hit      bool    `json:"hit"`
 			Distance float64 `json:"distance"`
 			Point    v3      `json:"point"`
 		}
 		answers := map[string]answer{}
-		for _, s := range structures {
-			rec := rendering.NewHitRecord()
+		for si, s := range structures {
+			var rec *rendering.HitRecord
+			recKind := mode
+			switch mode {
+			case "fresh":
+				rec = rendering.NewHitRecord()
+			case "reused", "reused-near-first":
+				rec = reused[si]
+				if rec.Distance != 0 {
+					res.Count("bvh_calls_with_record_holding_an_earlier_hit", 1)
+					if rec.Distance < rq.nearest && !math.IsInf(rq.nearest, 1) {
+						res.Count("bvh_calls_with_record_holding_a_nearer_earlier_hit", 1)
+					}
+				}
+			default:
+				switch k := r.Intn(9); k {
+				case 0:
+					recKind, rec = "fresh", rendering.NewHitRecord()
+				case 1:
+					recKind = "literal-with-maps"
+					rec = &rendering.HitRecord{Float3Data: map[string]vector3.Float64{}, Float2Data: map[string]vector2.Float64{}}
+				case 2:
+					if si == 1 || si == 3 {
+						recKind, rec = "bare-literal", &rendering.HitRecord{}
+					} else {
+						recKind = "literal-with-maps"
+						rec = &rendering.HitRecord{Float3Data: map[string]vector3.Float64{}, Float2Data: map[string]vector2.Float64{}}
+					}
+				case 3:
+					recKind, rec = "distance-tiny", withMaps(1e-12*diam)
+				case 4:
+					recKind = "distance-half-of-true-hit"
+					h := rq.nearest * 0.5
+					if math.IsInf(h, 1) {
+						h = diam * r.Float64()
+					}
+					rec = withMaps(h)
+				case 5:
+					recKind, rec = "distance-huge", withMaps(1e9*diam)
+				case 6:
+					recKind, rec = "distance-NaN", withMaps(math.NaN())
+				case 7:
+					recKind, rec = "distance-+Inf", withMaps(math.Inf(1))
+				default:
+					recKind, rec = "distance-negative", withMaps(-diam*r.Float64())
+				}
+			}
+			res.SetAdd("bvh_record_kinds", recKind)
+			query["record_kind"] = recKind
 			var hit bool
-			c.Note(s.site)
+			c.Note(s.site + " record=" + recKind)
 			rr := ray
 			if p := run.Try(func() { hit = s.hit(&rr, tmin, tmax, rec) }); p != nil {
 				res.Violate("runtime-panic", s.site, sc.dist, fmt.Sprintf("panic: %v at %s", p.Value, p.Site), sc.witness(b, query, nil, nil))
@@ -321,7 +414,7 @@ func bvhCase(c *run.Ctx) run.Result {
 					res.Count("bvh_answers_explained_by_min_window", 1)
 				}
 				res.Violate(class, site, sc.dist,
-					fmt.Sprintf("%s: ray o=%v d=%v [%g,%g]: %s", s.site, o, d, tmin, tmax, msg), sc.witness(b, query, map[string]any{"structure": s.site, "answer": a}, want))
+					fmt.Sprintf("%s [incoming record: %s]: ray o=%v d=%v [%g,%g]: %s", s.site, recKind, o, d, tmin, tmax, msg), sc.witness(b, query, map[string]any{"structure": s.site, "answer": a}, want))
 			}
 		}
 	}
